@@ -50,7 +50,7 @@ def hook_dense(sem, io):
 
 class C06(Prop):
     id = 'C06'
-    rule_added = "20% as modular specifications (named Boolean or arithmetic sub-formulas); 8% shared-term template; 5% equality-mirror template; dense online under random chunkings. 25% of the discrete cases with prev/next of a term inside predicate arithmetic; shared-term template also with '/'."
+    rule_added = "Enumerated in every run: for every node class of the syntax tree (arithmetic, Boolean and temporal - the grammar is untyped) a predicate that reaches its variable only through a node of that class, under a random interface-aware semantics, io assignment and monitor kind. 20% with sqrt/exp/ln/pow/log. 20% as modular specifications (named Boolean or arithmetic sub-formulas); 8% shared-term template; 5% equality-mirror template; dense online under random chunkings. 25% of the discrete cases with prev/next of a term inside predicate arithmetic; shared-term template also with '/'."
     rule = ('random formulas (predicates over inputs only, outputs only, mixed, constants only; nested under every '
             'operator) x the 5 semantics x a random input/output assignment of the variables (set before parse(); '
             'untyped variables default to output) x the 4 monitor kinds: the result is compared with the reference '
@@ -143,6 +143,8 @@ class C06(Prop):
             c.future = False
         if rng.random() < 0.15:
             c.untyped = 0.2
+        if rng.random() < 0.2:
+            c.transcend = True             # sqrt, exp, ln, pow, log nodes pass the variables below them on as well
         if kind.startswith('dt') and rng.random() < 0.25:
             c.term_temporal = 0.3          # rate-of-change predicates: abs(x - (prev x)) <= 1
         modular = rng.random() < 0.2
@@ -194,6 +196,76 @@ class C06(Prop):
                 sig = lang.gen_signals(rng, names)
             case['signals'] = sig_text(sig)
         return case
+
+    def through_templates(self):
+        """One predicate per node class of the syntax tree whose only way to a variable leads through a node of
+        that class: `sqrt(abs(x) + 1) >= c`, `(2 - x) >= c`, `pow(abs(x) + 1, y / 4) >= c`, and - the grammar being
+        untyped - Boolean and temporal nodes in term position: `(not x) >= c`, `(once[0,1] x) >= c`, `(x since y) >= c`."""
+        N, V, C = lang.N, lang.V, lang.C
+        x, y = V('x'), V('y')
+        safe = N('add', N('abs', x), C(1.0))
+        out = [('neg', N('neg', x)), ('abs', N('abs', x)), ('sqrt', N('sqrt', safe)), ('exp', N('exp', N('div', x, C(8.0)))),
+               ('ln', N('ln', safe)), ('pow', N('pow', safe, C(2.0))), ('pow2', N('pow', safe, N('div', y, C(4.0)))),
+               ('log', N('log', safe, C(2.0))), ('log2', N('log', C(8.0), N('add', N('abs', y), C(2.0))))]
+        for o in ('add', 'sub', 'mul'):
+            out += [(o + '-l', N(o, x, C(2.0))), (o + '-r', N(o, C(2.0), x)), (o + '-2', N(o, x, y))]
+        out += [('div-l', N('div', x, C(2.0))), ('div-r', N('div', C(2.0), safe))]
+        out += [('not', N('not', x))]
+        for o in ('and', 'or', 'implies', 'iff', 'xor'):
+            out += [(o + '-l', N(o, x, C(1.0))), (o + '-r', N(o, C(1.0), y))]
+        for o in ('once', 'historically'):
+            out += [(o, N(o, x)), (o + '-timed', N(o, x, ivl=(0, 1)))]
+        for o in ('eventually', 'always'):
+            out += [(o, N(o, x)), (o + '-timed', N(o, x, ivl=(0, 1)))]
+        out += [('until', N('until', x, y))]
+        out += [('since', N('since', x, y)), ('since-timed', N('since', x, y, ivl=(0, 2))),
+                ('until-timed', N('until', x, y, ivl=(0, 2)))]
+        for o in ('prev', 's_prev', 'next', 's_next', 'rise', 'fall'):
+            out += [(o, N(o, x))]
+        return out
+
+    def extra(self, ctx):
+        rng = ctx.rng
+        temps = self.through_templates()
+        reps = 3 if ctx.tier == 'quick' else max(3, 96 // ctx.nshards)
+        done = 0
+        for label, term in temps:
+            for rep in range(reps):
+                if ctx.out_of_time():
+                    break
+                ops = lang.ops_of(term)
+                discrete_only = bool(ops & set(['prev', 's_prev', 'next', 's_next', 'rise', 'fall']))
+                future = lang.has_future(term)
+                kinds = ['dt_off'] + ([] if future else ['dt_on']) + ([] if discrete_only else ['ct_off']) + \
+                        ([] if (discrete_only or future) else ['ct_on'])
+                kind = rng.choice(kinds)
+                pred = lang.N(rng.choice(['geq', 'leq', 'gt', 'lt', 'eq', 'neq']), term, lang.C(rng.choice([0.0, 1.0, 2.0])))
+                other = lang.N(rng.choice(['geq', 'leq']), lang.V('z'), lang.C(rng.choice([0.0, 1.0])))
+                f = lang.N(rng.choice(['and', 'or', 'implies']), *rng.sample([pred, other], 2))
+                if rng.random() < 0.3 and not future:
+                    f = lang.N('once', f)
+                names = lang.variables(f)
+                io = dict((k, rng.choice(['input', 'output'])) for k in names)
+                sem = rng.choice(SEMS[1:])
+                if rep % 3 < 2:
+                    # the two configurations in which the predicate must keep its numeric robustness because of the
+                    # variables behind the node: every variable an input under an input-semantics / an output under
+                    # an output-semantics (vacuity or robustness)
+                    side = ('input', 'output')[rep % 3]
+                    sem = rng.choice([side + '_robustness', side + '_vacuity'])
+                    io = dict((k, side) for k in names)
+                    io['z'] = rng.choice(['input', 'output'])
+                case = {'formula': f, 'kind': kind, 'sem': sem, 'io': io, 'through': label}
+                if kind.startswith('dt'):
+                    case['data'] = lang.gen_trace(rng, names, rng.randint(2, 10))
+                else:
+                    base = lang.gen_signal(rng, n=rng.randint(2, 7), start=Fr(0))
+                    case['signals'] = sig_text(dict((k, [(t, rng.choice(lang.SMALL)) for (t, _) in base]) for k in names))
+                    if kind == 'ct_on':
+                        case['cuts'] = sorted(rng.sample(range(1, 8), rng.randint(0, 3)))
+                self.check(ctx, case)
+                done += 1
+        ctx.count('class:variable-reached-through-one-node-class', done)
 
     def run_real(self, kind, text, names, sem, io, data=None, sig=None, modular=None, cuts=None):
         sd = {'text': text, 'vars': names, 'semantics': sem, 'io': io}
